@@ -28,6 +28,12 @@ pub struct Obj {
     w: W,
 }
 
+impl Obj {
+    pub fn world(&self) -> W {
+        self.w.clone()
+    }
+}
+
 impl Drop for Obj {
     fn drop(&mut self) {
         lock(&self.w).on_destruct(self.id);
